@@ -19,6 +19,7 @@ func init() {
 			"CH-MAP GetFloat: integer and double labels convert without error; PV-FRESH: every JSON document is walked from an empty path stack",
 			"ERR-LOOP extractor scan loops run to the end of the line; PV-API Docker labels are stored under KeyToLabel(key) (what an offloaded matcher looks up)",
 			"PV-PURE LabelSet read accessors do not write the label map",
+			"merge iterator rules of C04 (every non-empty stream contributes its first record, nothing else)",
 		},
 		NotDecided: []string{"library semantics of strings.Contains / regexp / netip", "that the storage evaluates offloaded filters correctly (the engine re-checks them, so only completeness of the storage matters: C02)"},
 		Technique:  "SSA summary/typestate analysis of the Processor implementers (line/keep contract), enum-table chain extraction over feasible paths from parser tokens to built matchers, finite-case truth tables, dominance and path rules on the offload scan and the per-record pipeline",
@@ -43,7 +44,7 @@ func init() {
 			ruleTypeSwitchExhaustive(r, enginePkg, "", "buildLabelPredicate", logqlPkg, "LabelPredicate", 7, false)
 			ruleNilNil(r, []string{enginePkg}, map[string]string{})
 			ruleLineFilterBuilder(r)
-			ruleErrorPathKeepsLine(r, []string{"UnpackExtractor", "LineFormat"}) // "unless a formatting stage rewrote it, its original line": a stage that fails leaves the line alone
+			ruleErrorPathKeepsLine(r, []string{"DurationLabelFilter", "BytesLabelFilter", "NumberLabelFilter", "IPLabelFilter", "JSONExtractor", "LogfmtExtractor", "UnpackExtractor", "LineFormat"}) // "unless a formatting stage rewrote it, its original line": a stage that fails leaves the line alone
 			ruleDistinct(r)
 			ruleIndexLoopDeletion(r, []string{metricPkg, enginePkg, dockerlogPkg})
 			ruleOffloadProvenance(r)
@@ -52,6 +53,7 @@ func init() {
 			ruleExtractorErrors(r) // the labels a later filter reads: an extractor visits the whole line
 			ruleSanitiserSites(r)  // an offloaded matcher addresses a Docker label under its sanitised name
 			ruleLabelSetReadersPure(r)
+			ruleMergeIter(r) // no phantom or lost records between the containers and the pipeline
 		},
 	})
 }
